@@ -108,6 +108,15 @@ def convenience_cases():
          {"t": "Label", "ch": {"a": {"t": "Sum", "q": "x"}, "b": {"t": "Sum", "q": "y"}}}),
         ("Branch.ing", lambda: hg.Branch.ing(hg.Count.ing(), hg.Average.ing(qx())),
          {"t": "Branch", "ch": [cnt, {"t": "Average", "q": "x"}]}),
+        # string quantities over records whose fields are called like names the evaluation namespace also holds: the
+        # field's value is the quantity (records get the extra fields e = x, pi = y, gamma = s, exp = c)
+        ("Bin('e', Sum('pi'))", lambda: hg.Bin(2, 0.0, 2.0, "e", hg.Sum("pi")), B({"t": "Sum", "q": "y"})),
+        ("Select('gamma', Average('e'))", lambda: hg.Select("gamma", hg.Average("e")),
+         {"t": "Select", "q": "s", "v": {"t": "Average", "q": "x"}}),
+        ("Categorize('exp', Minimize('pi'))", lambda: hg.Categorize("exp", hg.Minimize("pi")),
+         {"t": "Categorize", "q": "c", "v": {"t": "Minimize", "q": "y"}}),
+        ("SparselyBin('pi', Deviate('e'))", lambda: hg.SparselyBin(1.0, "pi", hg.Deviate("e")),
+         SB({"t": "Deviate", "q": "x"}, "y")),
     ]
 
 
@@ -121,8 +130,10 @@ def check_convenience(name, evs):
     try:
         h = thunk()
         for r, w in evs:
-            h.fill(A.fresh(r), w)
-        d = C.diff(h.toJson(), R.ref_doc(spec, evs))
+            r2 = A.fresh(r)
+            r2.update(e=r2["x"], pi=r2["y"], gamma=r2["s"], exp=r2["c"])
+            h.fill(r2, w)
+        d = C.diff(h.toJson(), R.ref_doc(spec, evs), drop_names="'" in name)
     except Exception as e:
         return [core.v_exc(PROP, "convenience", "%s raised" % name, e, args)]
     if d:
